@@ -299,11 +299,11 @@ theorem step_spec (d d' : Dec) (q : Option Nat) (b : Bool) (hr : RInv d) (hq : â
       subst this
       exact key ({ d with range := d.range / 2 } : Dec) rfl (by dsimp only; omega) (by dsimp only; omega) (by dsimp only; omega) h
     Â· have : b = true := by
-        cases hn : ({ d with code := d.code - d.range / 2, range := d.range / 2 } : Dec).norm with
+        cases hn : ({ d with code := (2 ^ 32 + d.code - d.range / 2) % 2 ^ 32, range := d.range / 2 } : Dec).norm with
         | none => rw [hn] at h; cases h
         | some d1 => rw [hn] at h; simp only [Option.map_some, Option.some.injEq, Prod.mk.injEq] at h; exact h.1.symm
       subst this
-      exact key ({ d with code := d.code - d.range / 2, range := d.range / 2 } : Dec) rfl (by dsimp only; omega) (by dsimp only; omega) (by dsimp only; omega) h
+      exact key ({ d with code := (2 ^ 32 + d.code - d.range / 2) % 2 ^ 32, range := d.range / 2 } : Dec) rfl (by dsimp only; omega) (by dsimp only; omega) (by dsimp only; omega) h
 
 def isAsk {Î± : Type} : DecTree Î± â†’ Prop
   | .ask _ _ => True
